@@ -1,0 +1,31 @@
+//go:build verif
+
+package config
+
+// Contracts for gocv (see /verif/DESIGN.md). Comment-only; compiled only with
+// the build tag "verif".
+
+//@ func cmd/runprog/config.keySetToSlice
+//@   trusted "the keys of the map in unspecified order (range over a map)"
+//@   pure
+//@   ensures fresh(result) || len(result) == 0
+//@   ensures forall k int :: 0 <= k && k < len(result) ==> has(m, result[k])
+//@   ensures forall x string :: has(m, x) ==> exists k int :: 0 <= k && k < len(result) && result[k] == x
+
+// C01: the lists handed to the filter builder are disjoint with trace taking precedence: every traced
+// name stays traced, nothing is allowed that was not asked for, and nothing is both allowed and traced.
+//@ func cmd/runprog/config.cleanTrace props C01
+//@   arith int
+//@   assigns nothing
+//@   ensures forall i int, j int :: 0 <= i && i < len(result.0) && 0 <= j && j < len(result.1) ==> result.0[i] != result.1[j]
+//@   ensures forall k int :: 0 <= k && k < len(trace) ==> exists j int :: 0 <= j && j < len(result.1) && result.1[j] == trace[k]
+//@   ensures forall i int :: 0 <= i && i < len(result.0) ==> exists k int :: 0 <= k && k < len(allow) && allow[k] == result.0[i]
+//@   ensures forall j int :: 0 <= j && j < len(result.1) ==> exists k int :: 0 <= k && k < len(trace) && trace[k] == result.1[j]
+//@   ensures forall k int :: 0 <= k && k < len(allow) ==> (exists j int :: 0 <= j && j < len(result.1) && result.1[j] == allow[k]) || (exists i int :: 0 <= i && i < len(result.0) && result.0[i] == allow[k])
+//@   loop 0: invariant -1 <= rangeindex && rangeindex < len(trace) && fresh(traceMap) && traceMap != nil
+//@   loop 0: invariant forall x string :: has(traceMap, x) <==> (exists k int :: 0 <= k && k <= rangeindex && trace[k] == x)
+//@   loop 0: invariant forall x string :: has(traceMap, x) ==> traceMap[x]
+//@   loop 1: invariant -1 <= rangeindex && rangeindex < len(allow) && fresh(traceMap) && fresh(allowMap) && traceMap != nil && allowMap != nil && allowMap != traceMap
+//@   loop 1: invariant forall x string :: has(traceMap, x) <==> (exists k int :: 0 <= k && k < len(trace) && trace[k] == x)
+//@   loop 1: invariant forall x string :: has(traceMap, x) ==> traceMap[x]
+//@   loop 1: invariant forall x string :: has(allowMap, x) <==> (!has(traceMap, x) && exists k int :: 0 <= k && k <= rangeindex && allow[k] == x)
